@@ -18,7 +18,8 @@ func init() {
 		"(1) CHAIN: the fallback chain of selectionNetworkTypes as a function of (fixed policy, protocol, UDP health domain), extracted by constant propagation, is [requested] except for data UDP where it is [data-UDP, DNS-UDP same family, TCP same family]; every fallback loop of _select consults the alive set of the chain element of the current iteration, in order, and reports 'no alive node' only after the loop; the other-family retry is guarded by !strictIpVersion, the single-node last resort by len(Dialers)==1 with fixed(0); " +
 		"(2) POLICYEXH: every selection policy constant has a case in _select and policyNeedsAliveState, defaults are errors, the fixed index is range-checked before use; (3) EXCLUDED: the excluded node is threaded to every getter and compared before any candidate is chosen; " +
 		"(4) COMUT: every write of the alive-entry list happens under the set's mutex together with the index map write for the added/moved/removed node; (5) ALIVEONLY: the getters only return nodes read from the alive-entry list or the current best. " +
-		"Not decided: the tolerance relation between consecutive selections, latency arithmetic, histories. The group-level 'no best node => latency reset' invariant is decided under C16/GROUPBIT."})
+		"(6) TOLERANCE: the latency-update step of NotifyLatencyChange and the take-over test of the rescan, folded over every ordering cell of (new latency, current latency, tolerance) x alive x is-current-choice, take over / rescan / clear as the statement requires and agree with each other. " +
+		"Not decided: latency arithmetic (averages, offsets), the scan loop's minimum, behaviour over histories beyond one update step. The group-level 'no best node => latency reset' invariant is decided under C16/GROUPBIT."})
 }
 
 func runC15(c *Ctx) {
@@ -26,6 +27,7 @@ func runC15(c *Ctx) {
 	c15PolicyExh(c)
 	c15Excluded(c)
 	c15Comut(c)
+	c15Tolerance(c)
 }
 
 func c15Chain(c *Ctx) {
